@@ -66,11 +66,13 @@ K_pos == <<112, 111, 115>>
 K_len == <<108, 101, 110>>
 K_msg == <<109, 115, 103>>
 K_prefix == <<112, 114, 101, 102, 105, 120>>
+K_wide_msg == <<119, 105, 100, 101, 95, 109, 115, 103>>      \* wide_msg: the message, padded / truncated to the rest of the line
 Val(env, key) ==
     CASE key = K_k -> env.k
       [] key = K_pos -> Dec(env.pos)
       [] key = K_len -> Dec(env.len)
       [] key = K_msg -> env.msg
+      [] key = K_wide_msg -> env.msg
       [] key = K_prefix -> env.prefix
       [] OTHER -> <<>>                          \* unknown keys expand to nothing
 
@@ -79,7 +81,8 @@ Pieces(v, w) == {SubSeq(v, a, b) : a \in 1..(Len(v) + 1), b \in 0..Len(v)}      
 ItemAlts(env, it) ==
     IF it.k = "lit" THEN {it.text}
     ELSE LET v == Val(env, it.text) IN
-         IF ~it.hasw THEN {v}
+         IF it.text = K_wide_msg THEN {<<FLEX>> \o v \o <<FLEX>>}          \* fills the line: padding is free (the terminal is wider than the line)
+         ELSE IF ~it.hasw THEN {v}
          ELSE IF it.tr /\ ~Beyond16(it.w) /\ WNat(it.w) < Cols(v)
               THEN {<<FLEX>> \o p \o <<FLEX>> : p \in {q \in Pieces(v, 0) : Cols(q) <= WNat(it.w)}}
               ELSE {<<FLEX>> \o v \o <<FLEX>>}
